@@ -342,7 +342,13 @@ def run(F, chk):
         for d in walk(fn["body"]):
             vs = d.get("vars", []) if d["k"] == "Decl" else ([d["var"]] if d["k"] in ("If", "While") and d.get("var") else [])
             for v in vs:
-                vtypes[v["id"]] = (v.get("ct") or v.get("t") or "").replace("const ", "").replace("*", "").replace("&", "").strip()
+                # only locals that hold the result of a block lookup: the type of the lookup decides which blocks are reached
+                # (a reference to a block the function has just cloned has its exact type and is not a lookup)
+                i0 = v.get("init")
+                while is_node(i0) and i0["k"] == "Cast":
+                    i0 = i0["e"]
+                if is_node(i0) and i0["k"] == "Call" and (i0.get("short") or "").startswith("GetBlock"):
+                    vtypes[v["id"]] = (v.get("ct") or v.get("t") or "").replace("const ", "").replace("*", "").replace("&", "").strip()
         seen6 = set()
         for n in walk(fn["body"]):
             if not (n["k"] == "Call" and n.get("short") in ("Clear", "AddBlockRef", "SetBlockRef") and is_node(n.get("recv"))):
@@ -373,6 +379,12 @@ def run(F, chk):
                               "%s rebuilds %s::%s only for blocks of type %s; clones of %s keep the source model's block numbers in "
                               "that array" % (fn["name"].split("(")[0], owner, m["name"], T, ", ".join(c.split("::")[-1] for c in skipped[:4])))
     chk.floor(R6, 1)
+
+    # ---------------------------------------------------------------- R14.7
+    chk.share(F, "c05", ["R5.1", "R5.2", "R5.5"], "R14.7",
+              "CloneChildren finds what to clone, re-index and rebind only through GetChildRefs / GetStringRefs / GetPtrs: a "
+              "serialised reference that an enumerator leaves out keeps the source model's number in the clone")
+    chk.floor("R14.7", 600)
 
     chk.assumptions += ["taint is tracked through locals, range-for variables and lambda captures; distinct objects are assumed not to "
                         "alias (Appendix A); a same-model clone (srcNif == this) necessarily adds blocks to that model",
